@@ -8,6 +8,7 @@ import (
 	"encoding/binary"
 	"encoding/hex"
 	"fmt"
+	"os"
 	"sort"
 )
 
@@ -127,6 +128,9 @@ type Log struct {
 	head  []string
 }
 
+// Dump, when set (VERIF_LOGDUMP), receives every event of every run.
+var Dump *os.File
+
 // NewLog returns an empty log.
 func NewLog(keep int) *Log { return &Log{Keep: keep} }
 
@@ -138,6 +142,9 @@ func (l *Log) Addf(format string, a ...any) {
 	buf = append(buf, s...)
 	l.h = sha256.Sum256(buf)
 	l.n++
+	if Dump != nil {
+		fmt.Fprintln(Dump, s)
+	}
 	if len(l.head) < 40 {
 		l.head = append(l.head, s)
 	}
